@@ -1,5 +1,7 @@
 (* Driver for the C15 model. Input lines:
-     P N n1 n2 n3                       -> "D a b c" | "OOB" | "UNINIT" | "FUEL"
+     P N n1 n2 n3                       -> "D a b c" | "OOB" | "UNINIT" | "THROWS" | "FUEL"
+     PS k N1 ... Nk n1 n2 n3            -> same format; fills with N1, ..., Nk in turn on one
+                                           container (k >= 0), then looks up with window Nk
      W N                                -> number of cells in the window
      V n1 n2 n3 beta chi_re chi_im g13_re g13_im g24.. g14.. g23..   (hex floats) -> "re im" (hex floats) *)
 open C15_model
@@ -9,6 +11,13 @@ let z_of_int n = if n = 0 then Z0 else if n > 0 then Zpos (pos_of_int n) else Zn
 let rec int_of_pos = function XH -> 1 | XO p -> 2 * int_of_pos p | XI p -> 2 * int_of_pos p + 1
 let int_of_z = function Z0 -> 0 | Zpos p -> int_of_pos p | Zneg p -> - (int_of_pos p)
 
+let print_outcome = function
+  | Done ((x, y), w) -> Printf.printf "D %d %d %d\n" (int_of_z x) (int_of_z y) (int_of_z w)
+  | OOB -> print_endline "OOB"
+  | Uninit -> print_endline "UNINIT"
+  | Throws _ -> print_endline "THROWS"
+  | OutOfFuel -> print_endline "FUEL"
+
 let () =
   try
     while true do
@@ -16,12 +25,16 @@ let () =
       match String.split_on_char ' ' (String.trim line) with
       | "P" :: n :: a :: b :: c :: [] ->
         let z s = z_of_int (int_of_string s) in
-        (match probe (z n) (z a) (z b) (z c) with
-         | Done ((x, y), w) -> Printf.printf "D %d %d %d\n" (int_of_z x) (int_of_z y) (int_of_z w)
-         | OOB -> print_endline "OOB"
-         | Uninit -> print_endline "UNINIT"
-         | Throws _ -> print_endline "THROWS"
-         | OutOfFuel -> print_endline "FUEL")
+        print_outcome (probe (z n) (z a) (z b) (z c))
+      | "PS" :: k :: rest
+        when (match int_of_string_opt k with
+              | Some k -> k >= 0 && List.length rest = k + 3 | None -> false) ->
+        let k = int_of_string k in
+        let zs = List.map (fun s -> z_of_int (int_of_string s)) rest in
+        let ns = List.filteri (fun i _ -> i < k) zs in
+        (match List.filteri (fun i _ -> i >= k) zs with
+         | [a; b; c] -> print_outcome (probe_seq ns a b c)
+         | _ -> print_endline "PARSE-ERROR")
       | "W" :: n :: [] -> Printf.printf "%d\n" (int_of_z (window_cells (z_of_int (int_of_string n))))
       | "V" :: a :: b :: c :: rest ->
         let f = Array.of_list (List.map float_of_string rest) in
